@@ -6,6 +6,8 @@ F = "maze_dataset/maze/lattice_maze.py"
 REGISTRY.class_files.update({"LatticeMaze": F, "TargetedLatticeMaze": F, "SolvedMaze": F})
 
 CONN = T.GridT("bool", [2, None, None])
+# at call sites (SolvedMaze.__init__ -> dataclass initialiser -> __post_init__) the real body is executed; the contract below is verified on its own
+REGISTRY.inlinable.update({(F, "TargetedLatticeMaze.__post_init__")})
 
 
 def _kinds():
